@@ -449,6 +449,40 @@ def rows_where(rows: List[Tuple[Optional[bool], Optional[int]]]) -> str:
     return 'ok'
 
 
+WHERE_CONSTANT_FORMS = ['p / q > r', 'p % q = r', 'NULL', 'r BETWEEN p AND p / q', 'NOT p / q > r', 'p = q',
+                        'p / q > r AND v IS NOT NULL', 'p / q > r OR v IS NULL', 'coalesce(p / q > r, p = r)']
+
+
+def _where_constant(form, p, q, r):
+    P, Q, R = const(p), const(q), const(r)
+    quot = ast.Greater(ast.Div(P, Q), R)
+    return [quot, ast.Equal(ast.Mod(P, Q), R), const(None), ast.Between(R, P, ast.Div(P, Q)), ast.Not(quot), ast.Equal(P, Q),
+            ast.And([quot, ast.IsNotNull(col('v'))]), ast.Or([quot, ast.IsNull(col('v'))]),
+            ast.Function('coalesce', [quot, ast.Equal(P, R)])][form]
+
+
+@cond('C01.rows.where-constant', quick=120, thorough=300,
+      bounds=f'table of 2 rows (v symbolic int or NULL); WHERE conditions without (or with only a trailing) column reference, '
+             f'which the compiler folds to a constant: {WHERE_CONSTANT_FORMS} with the literals p, q, r from 0..2 (division / '
+             'modulo by zero give a constant NULL): all rows are kept iff the condition is true, none if it is NULL or false',
+      symbolic='v cells', enumerated='condition form, literals',
+      params={'v0': Optional[int], 'v1': Optional[int], 'form': int, 'p': int, 'q': int, 'r': int})
+def rows_where_constant(v0, v1, form, p, q, r):
+    form = enum_int(form, 0, len(WHERE_CONSTANT_FORMS) - 1)
+    p, q, r = enum_int(p, 0, 2), enum_int(q, 0, 2), enum_int(r, 0, 2)
+    columns = [('v', int)]
+    rows = [(v0,), (v1,)]
+    stmt = sel([target(col('v'))], 't', where=_where_constant(form, p, q, r))
+    text = native(print_select, stmt)
+    conn = connect(t=HTable('t', columns, rows))
+    got = conn.execute(parse(text)).fetchall()
+    want = refsem.Ref({'t': (columns, rows)}).select(stmt)
+    if not same_rows(got, want.rows):
+        return 'rows-kept-under-constant-condition'
+    cover('kept' if want.rows else 'dropped')
+    return 'ok'
+
+
 class _UTable(HTable):
     def update(self, **kwargs):
         return self
